@@ -103,8 +103,8 @@ theorem delete_cleans (cfg : Cfg) (fs : FS) :
   obtain ⟨d, p, q, pt, ct⟩ := fs
   obtain ⟨m, sw⟩ := cfg
   cases m <;> cases sw <;> cases p <;> cases q <;> cases d <;>
-    simp [deleteFS, deleteSteps, hasSaved, runSteps, Step.apply, FS.set, FS.noFiles, storageLoad] <;>
-    (try split) <;> simp_all
+    simp [deleteFS, deleteSteps, hasSaved, hasLeftover, runSteps, Step.apply, FS.set, FS.noFiles, storageLoad] <;>
+    (repeat' split) <;> simp_all
 
 /-- files only exist inside an existing directory -/
 def WF (fs : FS) : Prop := fs.dir = false → fs.noFiles = true
@@ -113,7 +113,7 @@ theorem delete_wf (cfg : Cfg) (fs : FS) (h : WF fs) : WF (deleteFS cfg fs) := by
   obtain ⟨d, p, q, pt, ct⟩ := fs
   obtain ⟨m, sw⟩ := cfg
   cases m <;> cases sw <;> cases d <;>
-    simp_all [WF, deleteFS, deleteSteps, hasSaved, runSteps, Step.apply, FS.set, FS.noFiles] <;>
+    simp_all [WF, deleteFS, deleteSteps, hasSaved, hasLeftover, runSteps, Step.apply, FS.set, FS.noFiles] <;>
     (repeat' split) <;> simp_all
 
 theorem save_wf (cfg : Cfg) (fs : FS) (c : Content) (cls : Cls) (v : Nat) : WF (saveFS cfg fs c cls v) := by
@@ -315,5 +315,99 @@ theorem wf_run (cfg : Cfg) (w : World) (ops : List Op) (h : WF w.fs) : WF (run c
     | load => rw [step_fs_readonly _ _ _ (Or.inl rfl)]; exact h
     | reopen => rw [step_fs_readonly _ _ _ (Or.inr (Or.inl rfl))]; exact h
     | loadForeign c v => rw [step_fs_readonly _ _ _ (Or.inr (Or.inr ⟨c, v, rfl⟩))]; exact h
+
+/-! ### the auto-load decision (`has_saved_content`) against what `_load` selects -/
+
+theorem autoAttempt_eq_loadable (fs : FS) (h : storageLoad fs ≠ .corrupt) : autoAttempt fs = loadable fs := by
+  obtain ⟨d, p, q, pt, ct⟩ := fs
+  cases p <;> cases q <;> simp_all [storageLoad, hasSaved, autoAttempt, loadable]
+
+theorem sel_ok_or_notFound (cls : Cls) (p : Promise) (fs : FS) (h : Sel cls p fs) :
+    storageLoad fs = .notFound ∨ ∃ v, storageLoad fs = .ok cls v := by
+  unfold Sel at h
+  split at h
+  · obtain ⟨v', h, _⟩ := h; exact Or.inr ⟨v', h⟩
+  · rcases h with h | ⟨v', h, _⟩
+    · exact Or.inl h
+    · exact Or.inr ⟨v', h⟩
+
+/-- whatever the file system looks like: the constructor never sends `load` where `_load` finds no file -/
+theorem reopen_not_notFound (cfg : Cfg) (w : World) : (step cfg w .reopen).2 ≠ .load .notFound := by
+  simp only [step]
+  split
+  · rename_i hs
+    intro hc
+    have hn : storageLoad w.fs ≠ .notFound := by
+      intro hnf
+      rw [autoAttempt, (storageLoad_notFound_hasSaved w.fs).1 hnf] at hs
+      cases hs
+    simp only [nodeLoad, nodeLoadBy] at hc
+    split at hc
+    · split at hc <;> cases hc
+    · rename_i hnf; exact hn hnf
+    · cases hc
+  · intro hc; cases hc
+
+/-! ### the in-place save never creates a temporary -/
+
+def NoTmp (fs : FS) : Prop := fs.pcklTmp = .absent ∧ fs.cpcklTmp = .absent
+
+theorem save_noTmp (sw : Bool) (fs : FS) (c : Content) (cls : Cls) (v : Nat) (h : NoTmp fs) :
+    NoTmp (saveFS ⟨.inPlace, sw⟩ fs c cls v) := by
+  obtain ⟨d, p, q, pt, ct⟩ := fs
+  cases c <;>
+    simp [NoTmp, saveFS, saveSteps, attempt, runSteps, Step.apply, FS.set, FS.get, FS.noFiles] at h ⊢ <;>
+    (repeat' split) <;> simp_all
+
+theorem crash_noTmp (sw : Bool) (fs : FS) (c : Content) (cls : Cls) (v k : Nat) (h : NoTmp fs) :
+    NoTmp (crashFS ⟨.inPlace, sw⟩ fs c cls v k) := by
+  unfold crashFS
+  have hm := take_mem_prefixes (saveSteps (Cfg.mk .inPlace sw).saveMode c cls v) k
+  generalize (saveSteps (Cfg.mk .inPlace sw).saveMode c cls v).take k = pre at hm
+  obtain ⟨d, p, q, pt, ct⟩ := fs
+  cases c <;>
+    simp [saveSteps, attempt, prefixes] at hm <;>
+    rcases hm with rfl | rfl | rfl | rfl | rfl | rfl | rfl <;>
+    simp_all [NoTmp, runSteps, Step.apply, FS.set, FS.get]
+
+theorem delete_noTmp (cfg : Cfg) (fs : FS) (h : NoTmp fs) : NoTmp (deleteFS cfg fs) := by
+  obtain ⟨d, p, q, pt, ct⟩ := fs
+  obtain ⟨m, sw⟩ := cfg
+  cases m <;> cases sw <;>
+    simp_all [NoTmp, deleteFS, deleteSteps, hasSaved, hasLeftover, runSteps, Step.apply, FS.set, FS.noFiles] <;>
+    (repeat' split) <;> simp_all
+
+theorem noTmp_run (sw : Bool) (w : World) (ops : List Op) (h : NoTmp w.fs) : NoTmp (run ⟨.inPlace, sw⟩ w ops).fs := by
+  induction ops generalizing w with
+  | nil => exact h
+  | cons op r ih =>
+    apply ih
+    cases op with
+    | crash c v k => exact crash_noTmp sw w.fs c w.node.cls v k h
+    | save c v => exact save_noTmp sw w.fs c w.node.cls v h
+    | delete => exact delete_noTmp _ w.fs h
+    | load => rw [step_fs_readonly _ _ _ (Or.inl rfl)]; exact h
+    | reopen => rw [step_fs_readonly _ _ _ (Or.inr (Or.inl rfl))]; exact h
+    | loadForeign c v => rw [step_fs_readonly _ _ _ (Or.inr (Or.inr ⟨c, v, rfl⟩))]; exact h
+
+/-! ### delete, full strength: nothing is left, neither file nor directory -/
+
+theorem delete_all_sweep (m : SaveMode) (fs : FS) (h : m = .atomicReplace ∨ NoTmp fs) :
+    deleteFS ⟨m, true⟩ fs = FS.init := by
+  obtain ⟨d, p, q, pt, ct⟩ := fs
+  cases m <;> cases d <;> cases p <;> cases q <;> cases pt <;> cases ct <;>
+    simp_all [NoTmp, deleteFS, deleteSteps, hasSaved, hasLeftover, runSteps, Step.apply, FS.set, FS.noFiles, FS.init]
+
+theorem delete_all_noTmp (cfg : Cfg) (fs : FS) (h : NoTmp fs) : deleteFS cfg fs = FS.init := by
+  obtain ⟨d, p, q, pt, ct⟩ := fs
+  obtain ⟨m, sw⟩ := cfg
+  cases m <;> cases sw <;> cases d <;> cases p <;> cases q <;>
+    simp_all [NoTmp, deleteFS, deleteSteps, hasSaved, hasLeftover, runSteps, Step.apply, FS.set, FS.noFiles, FS.init]
+
+theorem delete_all_hasSaved (sw : Bool) (fs : FS) (h : hasSaved fs = true) :
+    deleteFS ⟨.atomicReplace, sw⟩ fs = FS.init := by
+  obtain ⟨d, p, q, pt, ct⟩ := fs
+  cases sw <;> cases d <;> cases p <;> cases q <;>
+    simp_all [deleteFS, deleteSteps, hasSaved, hasLeftover, runSteps, Step.apply, FS.set, FS.noFiles, FS.init]
 
 end PwVerif.Storage
